@@ -1215,6 +1215,7 @@ pub fn run_scripted(n: u64, rng: &mut Rng, args: &Args, stamp: Arc<AtomicU64>, o
         let pb = w.shared.get("pb").as_ref().and_then(value_i64);
         if pa.is_some() && pb.is_some() && pa != pb {
             // only a cycle that faulted between the two writes and was written back can do this
+            // (finding C20-faulted-cycle-publishes-partial-writes, fixed: a reproduction is a violation)
             out.line("tag partial-publish");
             out.count("cases_with_partial_publish");
         }
@@ -1521,8 +1522,10 @@ pub fn run_stress(n: u64, rng: &mut Rng, args: &Args, stamp: Arc<AtomicU64>, out
 }
 
 // ------------------------------------------------------------------------------------------------
-// Poison scenario (outside the model: panics): does a panic inside one resource's cycle take the
-// other resources down through the poisoned `SharedGlobals` mutex?
+// Poison scenario (outside the model: panics), regression witness of finding
+// C20-panic-poisons-shared-globals (fixed): after a panic inside one resource's cycle the other
+// resource must keep running, publish the right state, obey stop, and `SharedGlobals::get` must
+// not panic.  Any other outcome is reported by checks/c20.py as a violation.
 // ------------------------------------------------------------------------------------------------
 
 pub fn run_poison(n: u64, _rng: &mut Rng, args: &Args, stamp: Arc<AtomicU64>, out: &mut Out) -> Result<(), String> {
@@ -1563,21 +1566,32 @@ pub fn run_poison(n: u64, _rng: &mut Rng, args: &Args, stamp: Arc<AtomicU64>, ou
         if !wait(&w, 0, &|g| g.dropped) {
             return Err("poison scenario: the panicking thread did not end".into());
         }
-        // resource 1 is asked for one more cycle
+        // resource 1 is asked for one more cycle: it must complete it (regression witness of the
+        // fix "with_lock recovers a poisoned guard")
         let before = w.res[1].ctl.m.lock().unwrap().writes;
         let t = w.clocks[1].clock.advance(Duration::from_nanos(10 * MS));
         w.clocks[1].now = t.as_nanos();
         let moved = wait(&w, 1, &|g| g.dropped || g.writes > before);
         let killed = w.res[1].ctl.m.lock().unwrap().dropped;
         let state_after = w.res[1].handle.state();
-        let get_panics = std::panic::catch_unwind(std::panic::AssertUnwindSafe(|| w.shared.get("cnt"))).is_err();
+        let got = std::panic::catch_unwind(std::panic::AssertUnwindSafe(|| w.shared.get("cnt")));
+        // r0 added 1, r1 added 2 twice; the panicking cycle of r0 never reached the program
+        let value_ok = matches!(&got, Ok(Some(v)) if value_i64(v) == Some(5));
+        // and it must still obey stop
         w.release_everything();
-        let _ = w.settle(true);
+        let pos = w.settle(true);
+        let stopped = pos[1] == Pos::D && w.res[1].handle.state() == ResourceState::Stopped && w.res[1].join_ok;
         if !moved {
             return Ok("poison-other-stuck");
         }
-        if killed && state_after == ResourceState::Running {
-            return Ok(if get_panics { "poison-others-killed" } else { "poison-others-killed-get-ok" });
+        if killed {
+            return Ok("poison-others-killed");
+        }
+        if got.is_err() {
+            return Ok("poison-get-panics");
+        }
+        if state_after != ResourceState::Running || !value_ok || !stopped {
+            return Ok("poison-other-wrong-state");
         }
         Ok("poison-others-survive")
     })();
